@@ -211,6 +211,16 @@ fn junk_fill(r: &mut Rng, n: usize) -> Vec<u8> {
 }
 
 fn junk_block(r: &mut Rng) -> Vec<u8> {
+    // one block in ten is exactly one byte-string literal of the crate's source (two times in three
+    // a short one: a marker, a magic number, a tag), untouched by the sprinkling below — a marker
+    // another tool or transport puts between messages
+    if r.chance(1, 10) {
+        let mut b = if r.chance(2, 3) { crate::dict::short_blob(r).to_vec() } else { crate::dict::blob(r).to_vec() };
+        while let Some(i) = crate::model::naive_find(&b) {
+            b[i + 3] = 0x02;
+        }
+        return b;
+    }
     // rarely: a hole larger than any message (zero-filled or garbage sectors after power loss),
     // around the 16 + 65535 boundary and well beyond it
     if r.chance(1, 120) {
